@@ -29,7 +29,7 @@ use crate::raft_log::raft_log::kani_h_a_raftlog as arl;
 use crate::raft_log::state_machine::raft_log_state::RaftLogState;
 use crate::raft_log::wal::kani_h_a_wal as awal;
 
-fn closed_chunk(slot: usize, start: u64, end: u64, last: Option<Id>) -> ClosedChunk<KTypes> {
+fn closed_chunk(slot: usize, start: u64, end: u64, last: Option<Id>) -> ClosedChunk<RTypes> {
     let g = gfs::fs();
     g.files[slot].used = true;
     g.files[slot].exists = true;
@@ -40,16 +40,16 @@ fn closed_chunk(slot: usize, start: u64, end: u64, last: Option<Id>) -> ClosedCh
     let mut offs: Vec<u64> = Vec::with_capacity(2);
     offs.push(start);
     offs.push(end);
-    let chunk = Chunk::<KTypes> { f, global_offsets: offs, truncated: None, _p: Default::default() };
-    let state = RaftLogState::<KTypes> { last, ..Default::default() };
+    let chunk = Chunk::<RTypes> { f, global_offsets: offs, truncated: None, _p: Default::default() };
+    let state = RaftLogState::<RTypes> { last, ..Default::default() };
     ClosedChunk::new(chunk, state)
 }
 
 /// store with two closed chunks (ghost slots 1 and 2, ids 100 and 200) whose
 /// closing states have last = l1 <= l2, and nothing live above l2 in memory
-fn mk(rotate: bool) -> (RaftLog<KTypes>, Option<Id>, Option<Id>) {
+fn mk(rotate: bool) -> (RaftLog<RTypes>, Option<Id>, Option<Id>) {
     let cfg = mk_config(None, None, None, None);
-    let mut rl: RaftLog<KTypes> = open_empty(cfg);
+    let mut rl: RaftLog<RTypes> = open_empty(cfg);
     // with a rotation inside purge the state is encoded into the new chunk's
     // head record: keep the Option shapes concrete there (Some/Some), the
     // values symbolic; without rotation the shapes are symbolic too
@@ -59,6 +59,16 @@ fn mk(rotate: bool) -> (RaftLog<KTypes>, Option<Id>, Option<Id>) {
     if let Some(x) = l2 {
         kani::assume(x.1 < 250);
     }
+    // the open chunk lies after the closed ones: move it (and its ghost file)
+    // from offset 0 to offset 300
+    let mut k = 0;
+    while k < 2 {
+        if k < rl.wal.open.chunk.global_offsets.len() {
+            rl.wal.open.chunk.global_offsets[k] += 300;
+        }
+        k += 1;
+    }
+    gfs::fs().files[0].chunk_id = 300;
     rl.wal.closed.insert(ChunkId(100), closed_chunk(1, 100, 200, l1));
     rl.wal.closed.insert(ChunkId(200), closed_chunk(2, 200, 300, l2));
     rl.log_state_mut().last = l2;
@@ -78,7 +88,18 @@ fn purge_step(rotate: bool) {
     // exactly the oldest chunks whose closing `last` is at or below the purge point
     let want1 = l1 <= Some(upto);
     let want2 = want1 && l2 <= Some(upto);
-    assert!(n == (want1 as usize) + (want2 as usize), "purge scheduled a wrong set of chunks");
+    // with a rotation inside purge the chunk that was open (it ends with the
+    // purge record) is closed too; its closing state has last = max(l2, upto),
+    // so it is obsolete exactly when chunk 200 is, and the purge point lives
+    // on in the head snapshot of the new chunk
+    let want3 = rotate && want2;
+    assert!(n == (want1 as usize) + (want2 as usize) + (want3 as usize), "purge scheduled a wrong set of chunks");
+    if n >= 3 {
+        assert!(arl::removed_chunk_slot(&rl, 2) == 0, "chunks must be scheduled oldest first");
+        assert!(rl.wal.closed.get(&ChunkId(300)).is_none());
+    } else if rotate {
+        assert!(rl.wal.closed.get(&ChunkId(300)).is_some(), "the chunk closed by the rotation left the closed set");
+    }
     if n >= 1 {
         assert!(arl::removed_chunk_slot(&rl, 0) == 1, "oldest chunk must be scheduled first");
         assert!(rl.wal.closed.get(&ChunkId(100)).is_none());
@@ -113,7 +134,7 @@ fn purge_step(rotate: bool) {
         assert!(gc::tag_at(0, sent1) == 2, "flush did not queue the Write first");
         assert!(gc::tag_at(0, sent1 + 1) == 1, "flush did not queue RemoveChunks after the Write");
         assert!(arl::removed_chunks_len(&rl) == 0, "scheduled chunks not handed over by flush");
-        kani::cover!(n == 2, "two chunks removed by one purge");
+        kani::cover!(n >= 2, "several chunks removed by one purge");
         kani::cover!(n == 1, "one chunk removed");
     } else {
         assert!(sent2 == sent1 + 1);
